@@ -20,7 +20,7 @@ RULE = ("a case marks a random subset of fields (text, host, integer, boolean, b
         "sensitive position equals the unmasked rendering (non-sensitive AES secrets are compared by decrypting), "
         "mask None changes nothing, documents decode to the masked tree; non-trivial = >= 2 sensitive non-empty "
         "positions at >= 2 depths and >= 1 non-sensitive position; distinct = distinct case content")
-REQUIRED = ("sensitive_flags_given_as_other_true_values", "fields_declared_twice_second_time_sensitive", "configurations_held_by_untyped_fields", "renders_after_failed_masked_render", "renders_after_schema_growth", "virtual_documents_scanned", "virtual_renderings_checked", "lists_reassigned_from_own_items", "sensitive_lists_checked", "unmasked_reference_checks", "trees_scanned", "documents_scanned", "sensitive_positions_checked", "nonsensitive_positions_checked",
+REQUIRED = ("lists_with_equal_items", "sensitive_flags_given_as_other_true_values", "fields_declared_twice_second_time_sensitive", "configurations_held_by_untyped_fields", "renders_after_failed_masked_render", "renders_after_schema_growth", "virtual_documents_scanned", "virtual_renderings_checked", "lists_reassigned_from_own_items", "sensitive_lists_checked", "unmasked_reference_checks", "trees_scanned", "documents_scanned", "sensitive_positions_checked", "nonsensitive_positions_checked",
             "mask:none", "mask:empty", "mask:one-char", "mask:multi-char", "sensitive_in_list_items", "sensitive_in_ctype",
             "sensitive_at_depth>=2")
 ASSUMPTIONS = ["the length rule (mask character repeated to the value's length) is asserted for text values only",
@@ -69,6 +69,14 @@ def generate(rng, ctx):
         "held": rng.random() < 0.5,
         "titems": [_scope(rng) for _ in range(rng.choice([0, 1, 2]))],
     }
+    # two EQUAL items in a list (configuration types compare by content), also the very same values three times
+    import copy as _copy
+
+    for lst in ("items", "titems"):
+        if layout[lst] and rng.random() < 0.3:
+            for _ in range(rng.choice([1, 2])):
+                layout[lst].insert(rng.randrange(len(layout[lst]) + 1), _copy.deepcopy(layout[lst][0]))
+            layout["equal_items"] = True
     # all items of one list share the item schema: sensitivity per kind is fixed by the first item
     for lst in ("items", "titems"):
         sens = {k: rng.random() < 0.55 for k in KINDS}
@@ -126,6 +134,8 @@ def run(case, ctx, res):
     cc = ctx.cc
     lay, method = case["layout"], case["method"]
     STYLE.update(flags="truthy" if case.get("truthy_flags") else "bool", redeclare=bool(case.get("redeclare")), n=0)
+    if lay.get("equal_items"):
+        res.count("lists_with_equal_items")
     if case.get("truthy_flags"):
         res.count("sensitive_flags_given_as_other_true_values")
     if case.get("redeclare"):
